@@ -43,6 +43,8 @@ fn main() {
     }
     let repeat = a.contains_key("repeat");
     let twice = a.contains_key("twice");
+    // run every case on a thread with this stack size (KiB): unbounded recursion shows as a crash
+    let stack_kb: usize = arg(&a, "stack-kb", 0);
     let emit = |c: &Case| {
         wd.begin(c.id);
         if twice {
@@ -57,7 +59,17 @@ fn main() {
             let _ = writeln!(so, "{}", serde_json::json!({"case": c, "obs": o1, "p2": p2, "obs2": o2}));
             return;
         }
-        let obs = run_case(c, &cfg);
+        let obs = if stack_kb > 0 {
+            let (c2, cfg2) = (c.clone(), cfg.clone());
+            std::thread::Builder::new()
+                .stack_size(stack_kb * 1024)
+                .spawn(move || run_case(&c2, &cfg2))
+                .unwrap()
+                .join()
+                .unwrap()
+        } else {
+            run_case(c, &cfg)
+        };
         // a second fresh solver in the same process must behave identically
         let same = if repeat {
             let o2 = run_case(c, &cfg);
